@@ -1372,4 +1372,4 @@ LEVEL_TEXT = ('Machine-checked refinement proofs (Lean 4) for the synchronous Bu
               'decides failing inputs for both readers, including two levels of delimited sub-readers.')
 LEVEL_NOTE = ('Trusted: Lean kernel + standard axioms, the correspondence harness, the Cur oracle, the delimit/pop bookkeeping of the two drivers. Partial: operations on a parent while its child is alive, '
               'raising async sources are not covered by theorems.')
-TECHNIQUE = 'Lean 4 refinement proof (sync reader model over any lawful source, async reader model over any chunk list -> one flat cursor) + differential correspondence model vs. real code + statement oracle (flat cursor with sub-cursors)'
+TECHNIQUE = 'Lean 4 refinement proof (sync reader model over any lawful source, async reader model over any chunk list incl. nested delimited readers and the iteration guard -> one flat cursor) + differential correspondence model vs. real code + statement oracle (flat cursor with sub-cursors)'
